@@ -329,6 +329,17 @@ func buildHandlers() map[string]handler {
 			return tFalse
 		})
 	}
+	// pointer atomics (atomic.Pointer[T] is built on them): the cell holds the pointer value itself
+	h["sync/atomic.LoadPointer"] = atomicOp(func(e *Exec, c *Cell, a []Value, fn *ssa.Function) Value { return c.v })
+	h["sync/atomic.StorePointer"] = atomicOp(func(e *Exec, c *Cell, a []Value, fn *ssa.Function) Value { c.v = a[1]; return nil })
+	h["sync/atomic.SwapPointer"] = atomicOp(func(e *Exec, c *Cell, a []Value, fn *ssa.Function) Value { o := c.v; c.v = a[1]; return o })
+	h["sync/atomic.CompareAndSwapPointer"] = atomicOp(func(e *Exec, c *Cell, a []Value, fn *ssa.Function) Value {
+		if e.decide(e.eqVal(c.v, a[1])) {
+			c.v = a[2]
+			return tTrue
+		}
+		return tFalse
+	})
 	// ---- glog, logging ----
 	h["github.com/golang/glog.V"] = func(e *Exec, fn *ssa.Function, a []Value) Value { return e.zero(resultType(fn, 0)) }
 	// ---- fmt / errors ----
@@ -623,8 +634,36 @@ func buildHandlers() map[string]handler {
 	concStr("strings.ToLower", func(a []string) Value { return Str{conc: strings.ToLower(a[0])} })
 	concStr("strings.ToUpper", func(a []string) Value { return Str{conc: strings.ToUpper(a[0])} })
 	concStr("strings.TrimSpace", func(a []string) Value { return Str{conc: strings.TrimSpace(a[0])} })
-	concStr("strings.HasPrefix", func(a []string) Value { return B(strings.HasPrefix(a[0], a[1])) })
-	concStr("strings.HasSuffix", func(a []string) Value { return B(strings.HasSuffix(a[0], a[1])) })
+	// HasPrefix/HasSuffix: exact byte-wise formula on bytes strings (concrete lengths)
+	affix := func(name string, suffix bool) {
+		h[name] = func(e *Exec, fn *ssa.Function, a []Value) Value {
+			x, y := a[0].(Str), a[1].(Str)
+			if x.isConc() && y.isConc() {
+				if suffix {
+					return B(strings.HasSuffix(x.conc, y.conc))
+				}
+				return B(strings.HasPrefix(x.conc, y.conc))
+			}
+			if x.atom != nil || y.atom != nil {
+				panic(unsupported(name + " on atom string"))
+			}
+			xb, yb := e.toBytes(x), e.toBytes(y)
+			if len(yb) > len(xb) {
+				return tFalse
+			}
+			off := 0
+			if suffix {
+				off = len(xb) - len(yb)
+			}
+			r := tTrue
+			for i := range yb {
+				r = And(r, Eq(xb[off+i], yb[i]))
+			}
+			return r
+		}
+	}
+	affix("strings.HasPrefix", false)
+	affix("strings.HasSuffix", true)
 	h["strings.Contains"] = func(e *Exec, fn *ssa.Function, a []Value) Value {
 		x, y := a[0].(Str), a[1].(Str)
 		if x.isConc() && y.isConc() {
@@ -849,6 +888,7 @@ func buildHandlers() map[string]handler {
 		}
 		return Iface{}
 	}
+	buildHandlers2(h)
 	return h
 }
 
